@@ -10,6 +10,7 @@ from .. import common
 from ..common import log
 from . import c08_esc
 from . import c08_quote
+from . import c08_text
 
 # ---------------------------------------------------------------------------------------------
 # formula trees: ('i', n) ('f', n64) ('s', text) ('u', op, e) ('b', op, l, r) ('c', fn, [args])
@@ -894,7 +895,7 @@ def evaluate(bdir, wd, quirks, trees, tag, stats):
 
 def run(args):
     res = common.Result("C08", args.tier, args.seed, "proof")
-    bdir, audit, proof_problems = common.standard_setup(res, "C08", ["Operators", "IntFormats"])
+    bdir, audit, proof_problems = common.standard_setup(res, "C08", ["Operators", "IntFormats", "FuncArgFmt"])
     if bdir is None:
         return res.finish()
     drv_ok = not any(p.startswith("driver does not build") for p in proof_problems)
@@ -1135,6 +1136,8 @@ def run(args):
             n_eval += literal_sweep(bdir, wd, common.rng_for(args.seed, "C08lit"), args.tier, stats, dist, spec_fail, corr_fail, samples)
             # ---- constants of every notation inside formulas and operand lists, on the targets with a QualifyQuote callback and a few more
             n_eval += c08_quote.run(_sys.modules[__name__], bdir, wd, quirks, args.seed, args.tier, stats, dist, spec_fail, corr_fail, samples, proof_problems)
+            # ---- values that pass through text: arguments of user-defined functions, compared exactly (vlib/props/c08_text.py)
+            n_eval += c08_text.run(bdir, wd, args.seed, args.tier, stats, dist, spec_fail, corr_fail, samples, proof_problems)
 
     res.coverage = common.proof_coverage(audit, "C08", [
         "translate/tables.py gen_operators/gen_intformats (static dumpers linked with operator.c.o/function.c.o of the current build; intformat.c included)",
@@ -1148,7 +1151,11 @@ def run(args):
         "the QualifyQuote_SingleQuoteConstant model reports the apostrophe of an open IBM constant as no string delimiter, so the operator scan and the comma search go on behind "
         "it (proved); model callback = SPEC predicate openIbmAt at every apostrophe of every generated text (checked by the driver, field qual), character loop of EvalStrExpression / "
         "QuotPosCore with the callback vs real asl, and the SPEC's fold over the manual's notation table vs real asl are the differential part",
-        "Lean `Float` (opaque to the kernel) for float-valued cases: structural only, compared with 1e-9 relative tolerance"])
+        "Lean `Float` (opaque to the kernel) for float-valued cases: structural only, compared with 1e-9 relative tolerance",
+        "user-defined functions (vlib/props/c08_text.py): C08_func_call_values / _float_roundtrip / _float_digits (Props/C08_Func.lean) - a call is the body on the argument VALUES "
+        "whenever every argument survives its text form, which for floats holds for any correctly rounded print/parse pair once the print emits >= 17 significant digits "
+        "(hypotheses about the C library's printf/strtod, trusted base) - the number of digits is generated from tempresult.c; real asl vs SPEC vs MODEL compared EXACTLY "
+        "(bit patterns through DQ/DB bytes) is the differential part"])
     dist.update(stats)
     by_sig = {}
     for e in spec_fail:
@@ -1172,6 +1179,9 @@ def run(args):
              "(QualifyQuote_Z80), 8051, 8086, AVR - followed by each of the 22 dyadic operators, preceded by operators and by sign / complement, in chains, in front of a "
              "closing parenthesis, next to character constants, alone, and as operands of DB / DC.B / FCB lists (comma and further operand behind the constant), with random "
              "digit strings of the base that contain its largest digit in most cases, both cases of marker letters and digits, RELAXED ON / INTSYNTAX +/-, RADIX 10/16/8/2/random; "
+             "user-defined functions (identity, projections of 2/3 parameters, parameters used twice, sums/products/comparisons of parameters, bodies that call other "
+             "functions, calls nested in arguments) applied to floats that need 17 significant digits (0.1+0.2, square roots, random 64-bit patterns, subnormals, largest "
+             "double, -0.0), integers at the 64-bit limits and digit strings under RADIX 2..36, strings with quotes, backslashes, commas, parentheses, control and 8-bit characters; "
              "non-trivial = contains an operator or call; distinct by rendered text",
         samples=samples, distribution=dist)
     res.assumptions = ["the text sent to the real assembler is produced by the Lean SPEC `render`; the Lean model tokenises that same text",
@@ -1189,6 +1199,8 @@ def run(args):
                        "constants inside formulas are observed through SET + MESSAGE (symbol names with an underscore, so that no RADIX reads them as numbers) and through the bytes of "
                        "DB / DC.B / FCB statements; only digit strings of the RADIX base are generated as unmarked constants (a digit outside the base makes the text a float constant)",
                        "a failing formula is reported through its minimal failing subformulas (no proper subformula fails); a failure above a failing subformula is attributed to that subformula",
+                       "user-defined functions: results are read exactly from DQ (integer / IEEE double, little endian) and DB (string) statements on the 8086 target, the type from EXPRTYPE; "
+                       "the source text of these cases is rendered by the harness (Python repr for doubles: shortest text that reads back to the same double under a correctly rounded strtod)",
                        "float texts printed by asl are trusted to 100 units of the last significant digit when 12+ digits are printed (FloatString shortens to 18 characters), else to 1e-14 relative"]
     return common.conclude(res, proof_problems, spec_fail, corr_fail, n_eval)
 
@@ -1198,6 +1210,8 @@ def replay(args):
     print(json.dumps({k: (v if len(str(v)) < 2000 else str(v)[:2000] + "...") for k, v in d.items()}, indent=1))
     if d.get("quote_source"):
         return c08_quote.replay(_sys.modules[__name__], d)
+    if d.get("func_source"):
+        return c08_text.replay(d)
     if d.get("cpu") == "z80" and str(d.get("text", "")).startswith("db "):
         bdir = common.repo_build("hooks")
         with common.Workdir("c08r") as wd:
